@@ -88,14 +88,20 @@ def wiring(case):
         return {'error': 'proxy did not start: ' + px.log()[-300:]}
     try:
         keep = open_tunnels(ports)
-        time.sleep(0.3)
-        st, body = px.api('GET', '/live')
-        seen = {}
-        if st == 200:
-            for c in json.loads(body):
-                k = KIND_OF.get((c['listener'], c['request_feature']))
-                if k:
-                    seen[k] = c['idle_timeout']
+        # UDP sessions are registered when the listener task has handled the first datagram: poll until every tunnel
+        # that was established is listed (bounded), so that a slow machine does not read as 'not listed'
+        t0 = time.time()
+        while True:
+            st, body = px.api('GET', '/live')
+            seen = {}
+            if st == 200:
+                for c in json.loads(body):
+                    k = KIND_OF.get((c['listener'], c['request_feature']))
+                    if k:
+                        seen[k] = c['idle_timeout']
+            if all(k in seen for k, v in keep.items() if v[1]) or time.time() - t0 > 3.0:
+                break
+            time.sleep(0.1)
         return {'seen': seen, 'established': {k: v[1] for k, v in keep.items()}, 'alive': px.alive()}
     finally:
         px.stop()
@@ -141,6 +147,16 @@ def timing(case):
         u2.sendto(b'one', ('127.0.0.1', ports['rudp'])); u2.sendto(b'two', ('127.0.0.1', ports['rudp']))
         # poll both: when does the tcp tunnel end, when does the udp session leave /live?
         tcp_closed = udp_gone = None
+        # the session exists once the listener task has handled the first datagram: see it listed before watching it go
+        # (a first poll that came earlier than that once read as 'gone after 0.00 s')
+        seen = False
+        while not seen and time.time() - t0 < 3.0:
+            st, body = px.api('GET', '/live')
+            seen = st == 200 and any(c['listener'] == 'rudp' for c in json.loads(body))
+            if not seen:
+                time.sleep(0.02)
+        if not seen:
+            return {'error': 'the reverse-udp session never appeared in /api/live'}
         s.setblocking(False)
         while time.time() - t0 < 8.0 and (tcp_closed is None or udp_gone is None):
             if tcp_closed is None:
@@ -195,6 +211,6 @@ echo.stop(); uecho.close()
 if evals < 30 or len(distinct) < 3:
     machinery(f'vacuous: evals={evals} distinct={len(distinct)}')
 cov = {'evaluations': evals, 'distinct_nontrivial': len(distinct), 'transitions': evals, 'traces_validated_against_impl': evals,
-       'rule': 'real binary: timeouts.idle x timeouts.udp grid (quick: half of the 16 cells) x 6 tunnel kinds, idle_timeout reported by /api/live vs configured/default; close timing of silent tcp and udp tunnels with T=2, T=0 and four periods whose millisecond count exceeds 64 bits',
+       'rule': 'real binary: timeouts.idle x timeouts.udp grid (16 cells) x 6 tunnel kinds, idle_timeout reported by /api/live vs configured/default; close timing of silent tcp and udp tunnels with T=2, T=0 and four periods whose millisecond count exceeds 64 bits',
        'grid_cells': len(grid), 'tunnel_kinds': list(IS_UDP), 'schedule_control': 'kernel', 'samples': samples}
 sys.exit(chk.finish('model_checking', cov, ['E4 part: real clock; late bounds carry 1 s ticker (+1 s GC for the registry) + 2 s slack, early bounds 50 ms']))
